@@ -57,7 +57,7 @@ fn mutate_text(rng: &mut Rng, base: &str) -> (String, &'static str) {
             match rng.below(4) {
                 0 => (base.replace("name", &"n".repeat(20000)), "identifier of 20000 characters"),
                 1 => (base.replacen('{', &format!("{{ {} ", "name ".repeat(3000)), 2), "3000 repeated fields"),
-                2 => (base.replace("\"a\"", &format!("\"{}\"", "x".repeat(120_000))).replace("\"kiki\"", &format!("\"{}\"", "y".repeat(120_000))), "120 kB string literal"),
+                2 => (base.replace("\"a\"", &format!("\"{}\"", "x".repeat(2_000))).replace("\"kiki\"", &format!("\"{}\"", "y".repeat(2_000))), "2 kB string literal"),
                 _ => (format!("{}{}", base, " ".repeat(100_000)), "100 kB of trailing blanks"),
             } }
         _ => { // nesting
@@ -198,13 +198,27 @@ pub async fn observed_streams(rng: &mut Rng, out: &mut Out, stats: &mut serde_js
     run.inst.app.mutate(BASE_MUTATIONS[0], None).await.unwrap();
     let mut accepted = [0usize; 8]; let mut total = [0usize; 8];
 
+    // ---- measured, not judged: search() hands the text to FTS5 MATCH as one phrase of trigrams; with a
+    //      stored text of the same repeated letter the matching time grows much faster than the text
+    {
+        let m = Inst::start("fts { Doc { body: String } }").await;
+        let mut times = vec![];
+        let _ = m.app.mutate(&format!("mutate {{ fts.Doc {{ body: \"{}\" }} }}", "y".repeat(2000)), None).await;
+        for n in [1000usize, 2000] {
+            let t0 = std::time::Instant::now();
+            let o = call(m.app.query(&format!("query {{ fts.Doc(search(\"{}\")) {{ id }} }}", "y".repeat(n)), None)).await;
+            times.push(json!({"search_chars": n, "ms": t0.elapsed().as_millis() as u64, "outcome": o}));
+        }
+        stats.insert("fts_search_time_against_2000_stored_chars".into(), json!(times));
+        m.close();
+    }
     // ---- (b) mutated requests
     let groups: [(&str, u64, &[&str]); 5] = [("query", 1, &BASE_QUERIES), ("mutate", 2, &BASE_MUTATIONS), ("delete", 3, &BASE_DELETIONS), ("datamodel", 4, &BASE_MODELS), ("paramsjson", 5, &BASE_PARAMS)];
     let n_b = scale(600, 9000);
     for i in 0..n_b {
         let (api, stream, bases) = groups[[0usize, 0, 0, 1, 1, 1, 2, 3, 4][rng.below(9) as usize]];
         let base = *rng.pick(bases);
-        let (text, how) = if i < 19 { (bases[i % bases.len()].to_string(), "unchanged") } else { let (t, h) = mutate_text(rng, base); if rng.chance(1, 5) { let (t2, _) = mutate_text(rng, &t); (t2, h) } else { (t, h) } };
+        let (text, how) = if i < 19 { (bases[i % bases.len()].to_string(), "unchanged") } else { let (t, h) = mutate_text(rng, base); if rng.chance(1, 5) && t.len() < 5000 { let (t2, _) = mutate_text(rng, &t); (t2, h) } else { (t, h) } };
         let (o, d, p) = run.exec(api, &text).await;
         total[stream as usize] += 1; if o == 0 { accepted[stream as usize] += 1; }
         let mut meta = json!({"api": api, "how": how, "outcome": o, "len": text.len()});
